@@ -335,20 +335,42 @@ def r5_backend_neutral(run):
     ci = m.cls("cache.Cache")
     n = 0
     for name, fi in sorted(ci.methods.items()):
-        for t in walk_no_nested(fi.node):
-            if isinstance(t, ast.If) and "_sync" in unparse(t.test):
-                n += 1
-                calls = [c for s in t.body for c in ast.walk(s)
-                         if isinstance(c, ast.Call)]
-                ok = unparse(t.test) == "self._sync" and not t.orelse and all(
-                    attr_chain(c.func) == "self._db.sync" for c in calls) and \
-                    calls and not any(isinstance(s, (ast.Assign, ast.Delete,
-                                                     ast.Return))
-                                      for b in t.body for s in ast.walk(b))
-                run.check(ok, "R5", "%s::if self._sync" % fi.qual,
-                          "only calls self._db.sync()",
-                          "behaviour differs between the backends under "
-                          "`if %s`" % unparse(t.test), fi.loc(t))
+        cfg = cfg_of(fi, m)
+        tests = [t for t in cfg.by_kind("test")
+                 if any(attr_chain(x) == "self._sync" for x in ast.walk(t.ast))]
+        for t in tests:
+            n += 1
+            # what runs only when _sync is set may only be self._db.sync();
+            # what runs only when it is not set may only be a bare return
+            bad = []
+            for nd in cfg.nodes:
+                if nd.kind not in ("stmt", "return", "raise") or nd.ast is None:
+                    continue
+                gs = {(unparse(e), p) for e, p, b in cfg.guards(nd.id)
+                      if cfg.nodes[b].test == t.id}
+                if isinstance(nd.ast, ast.Pass):
+                    continue
+                if ("self._sync", True) in gs:
+                    if not (isinstance(nd.ast, ast.Expr) and
+                            isinstance(nd.ast.value, ast.Call) and
+                            attr_chain(nd.ast.value.func) == "self._db.sync"):
+                        bad.append(nd)
+                elif ("self._sync", False) in gs:
+                    if not (isinstance(nd.ast, ast.Return) and (
+                            nd.ast.value is None or
+                            (isinstance(nd.ast.value, ast.Constant) and
+                             nd.ast.value.value is None))):
+                        bad.append(nd)
+                elif gs:
+                    bad.append(nd)
+            # code after the test must be the end of the function: nothing
+            # else may depend on which backend is in use
+            run.check(not bad, "R5", "%s::if self._sync" % fi.qual,
+                      "only calls self._db.sync()",
+                      "behaviour differs between the backends under "
+                      "`if %s`: %s" % (unparse(t.ast),
+                                       [norm_text(b.ast)[:40] for b in bad]),
+                      fi.loc(t.ast))
         if name != "__init__":
             for s in walk_no_nested(fi.node):
                 if isinstance(s, ast.Assign) and any(
